@@ -49,7 +49,10 @@ fn gen_command(rng: &mut Rng, conn_id: u64) -> Vec<u8> {
     match rng.below(20) {
         0 | 1 => array(&[bulk(&case(rng, "ping"))]),
         2 => array(&[bulk(&case(rng, "ping")), bulk(format!("tag{}", rng.below(1000)).as_bytes())]),
-        3 => array(&[bulk(b"PING"), match rng.below(5) { 0 => bulk(b"a\r\nb"), 1 => int(7), 2 => b"+x\r\n".to_vec(), 3 => array(&[int(0), int(0), int(0), int(0), int(0)]), _ => array(&[int(1), bulk(b"z")]) }]),
+        // PING echoes its argument with its type: arguments that look like the server's own replies (+OK of QUIT, +PONG, an error
+        // line, a null, a denial array) must be echoed like any other and change nothing else
+        3 => array(&[bulk(b"PING"), match rng.below(11) { 0 => bulk(b"a\r\nb"), 1 => int(7), 2 => b"+x\r\n".to_vec(), 3 => array(&[int(0), int(0), int(0), int(0), int(0)]), 4 => array(&[int(1), bulk(b"z")]),
+            5 | 6 => b"+OK\r\n".to_vec(), 7 => b"+PONG\r\n".to_vec(), 8 => b"-ERR unknown command 'X'\r\n".to_vec(), 9 => b"$-1\r\n".to_vec(), _ => b"+QUIT\r\n".to_vec() }]),
         4 => array(&[bulk(b"PING"), bulk(b"a"), bulk(b"b")]),
         5 | 6 | 7 | 8 | 9 => {
             // THROTTLE key 3 1 9000000 [q]  (no refill during the run: emission interval 104 days)
@@ -99,6 +102,17 @@ fn gen_command(rng: &mut Rng, conn_id: u64) -> Vec<u8> {
         15 => array(&[int(1), bulk(b"x")]),
         16 => array(&[b"$-1\r\n".to_vec()]),
         17 => array(&[bulk("p\u{131}ng".as_bytes())]),
+        18 => {
+            // numeric header lines padded with zeros / a plus sign (str::parse::<i64> accepts them), up to 40 characters long
+            let z = "0".repeat(rng.range(1, 40) as usize);
+            match rng.below(5) {
+                0 => format!("*1\r\n${z}4\r\nPING\r\n").into_bytes(),
+                1 => format!("*{z}1\r\n$4\r\nPING\r\n").into_bytes(),
+                2 => format!("*2\r\n$4\r\nPING\r\n:+{z}7\r\n").into_bytes(),
+                3 => format!("*2\r\n$4\r\nPING\r\n:-{z}7\r\n").into_bytes(),
+                _ => format!("*+{z}1\r\n$+{z}4\r\nPING\r\n").into_bytes(),
+            }
+        }
         _ => array(&[bulk(b"PING"), bulk(&vec![b'x'; rng.below(3000) as usize])]),
     }
 }
@@ -143,6 +157,49 @@ fn run_conn(port: u16, chunks: &[Vec<u8>], pause_us: u64) -> (Vec<u8>, bool) {
     let _ = s.shutdown(std::net::Shutdown::Write);
     let out = reader.join().unwrap_or_default();
     (out, write_failed)
+}
+
+/// C14 / C10 under back-pressure: a client pipelines `n` PING commands with `size`-byte payloads on one connection and does NOT
+/// read until its own writes stall (the server's send path is full by then), then reads everything.  The reply stream must be
+/// exactly the echoes, in order: one well-formed frame per command, nothing missing or cut.
+fn mode_latereader(port: u16, rounds: u64) {
+    for round in 0..rounds {
+        let (n, size) = if round % 2 == 0 { (400usize, 40_000usize) } else { (1500, 9_000) };
+        let payload = |i: usize| -> Vec<u8> { let mut p = format!("<{i:06}>").into_bytes(); p.resize(size, b'a' + (i % 26) as u8); p };
+        let mut expected: Vec<u8> = Vec::with_capacity(n * (size + 16));
+        for i in 0..n { expected.extend_from_slice(&bulk(&payload(i))); }
+        let mut s = TcpStream::connect(("127.0.0.1", port)).unwrap();
+        s.set_write_timeout(Some(Duration::from_millis(250))).unwrap();
+        s.set_read_timeout(Some(Duration::from_millis(4000))).unwrap();
+        let mut rs = s.try_clone().unwrap();
+        let mut reader: Option<std::thread::JoinHandle<Vec<u8>>> = None;
+        let mut stalled_at: i64 = -1;
+        let want = expected.len();
+        let spawn_reader = move || std::thread::spawn(move || { let mut out = Vec::new(); let mut buf = vec![0u8; 65536]; while out.len() < want { match rs.read(&mut buf) { Ok(0) | Err(_) => break, Ok(k) => out.extend_from_slice(&buf[..k]) } } out });
+        let mut spawn_reader = Some(spawn_reader);
+        let mut write_error = String::new();
+        'w: for i in 0..n {
+            let cmd = array(&[bulk(b"PING"), bulk(&payload(i))]);
+            let mut off = 0;
+            while off < cmd.len() {
+                match s.write(&cmd[off..]) {
+                    Ok(0) => { write_error = "write returned 0".into(); break 'w; }
+                    Ok(k) => off += k,
+                    Err(e) if e.kind() == std::io::ErrorKind::WouldBlock || e.kind() == std::io::ErrorKind::TimedOut => {
+                        // our writes stall: the server no longer reads because it cannot write - start reading now
+                        if let Some(f) = spawn_reader.take() { stalled_at = i as i64; reader = Some(f()); }
+                    }
+                    Err(e) => { write_error = e.to_string(); break 'w; }
+                }
+            }
+        }
+        if let Some(f) = spawn_reader.take() { reader = Some(f()); }
+        let got = reader.unwrap().join().unwrap_or_default();
+        let first_diff = got.iter().zip(expected.iter()).position(|(a, b)| a != b).map(|p| p as i64).unwrap_or(if got.len() == expected.len() { -1 } else { got.len().min(expected.len()) as i64 });
+        let frame = size + 2 + format!("${size}\r\n").len();
+        println!("{{\"mode\":\"latereader\",\"round\":{round},\"commands\":{n},\"payload_bytes\":{size},\"client_stalled_at_command\":{stalled_at},\"reply_bytes\":{},\"expected_bytes\":{},\"first_difference_at_byte\":{first_diff},\"in_reply_number\":{},\"write_error\":{:?}}}",
+            got.len(), expected.len(), if first_diff >= 0 { first_diff / frame as i64 } else { -1 }, write_error);
+    }
 }
 
 /// C10: connection drops at every byte offset.  A pipeline of n THROTTLE commands (quantity 1, fresh key, no refill) is
@@ -221,6 +278,7 @@ fn main() {
         m.redis_requests.load(Ordering::Relaxed), m.requests_allowed.load(Ordering::Relaxed), m.requests_denied.load(Ordering::Relaxed), m.requests_errors.load(Ordering::Relaxed)] };
     let mut rng = Rng::new(seed ^ 0xc044);
     if arg_value("--mode").as_deref() == Some("drops") { mode_drops(port, &mut rng, n_cases); std::process::exit(0); }
+    if arg_value("--mode").as_deref() == Some("latereader") { mode_latereader(port, n_cases); std::process::exit(0); }
     for case in 0..n_cases {
         let ncmd = rng.range(1, max_cmds as i64) as usize;
         let mut stream = Vec::new();
